@@ -20,7 +20,8 @@ def claim_scenario(seed, nca=None, sends=False, requests=False):
     rng = random.Random(seed)
     nca = nca or rng.choice([2, 2, 3, 3, 4])
     veto = rng.random() < 0.6
-    base = rng.choice([128, 200, 230] if veto else [0, 10, 100, 120, 248])
+    # incl. the boundaries of the veto range (127|128, 247|248)
+    base = rng.choice([128, 128, 200, 230, 244, 245, 246, 247] if veto else [0, 10, 100, 120, 125, 126, 127, 248])
     style = rng.choice(["equal", "equal", "adjacent", "distinct", "mixed"])
     nodes, ops = [], []
     names = set()
